@@ -133,11 +133,11 @@ type srcCode struct {
 }
 
 type srcRef struct {
-	cnt     int8 // arrivals since the previous maintenance round (capped above every threshold)
-	silent  int8 // maintenance rounds since the last arrival (capped at unban+1)
-	seen    bool // had an arrival at all
-	inBan   bool // an arrival happened while the source was banned, during the current ban
-	carry   bool // unbanned by the latest Maintenance() after such a ban
+	cnt    int8 // arrivals since the previous maintenance round (capped above every threshold)
+	silent int8 // maintenance rounds since the last arrival (capped at unban+1)
+	seen   bool // had an arrival at all
+	inBan  bool // an arrival happened while the source was banned, during the current ban
+	carry  bool // unbanned by the latest Maintenance() after such a ban
 }
 
 type stateB struct {
